@@ -37,7 +37,7 @@ fn meta() -> Meta {
     Meta {
         id: "C13",
         level: "exploration",
-        rule: "routing: every brace list of <= 4 (quick, 205 lists) / 5 (thorough, 325 lists) distinct names from {A, B, S, U, _Default} in every order plus plain targets {m, m::x, other} x 5 levels x module path {m, other, absent} x specification {off, error, info, trace, off,m=debug} x primary {recording writer, file}; duplication: 7 x 7 Duplicate settings for stderr x stdout x 5 levels at build time, and every ordered pair (old, new) through adapt_duplication_to_stderr / _stdout; distinct_nontrivial = distinct (specification, primary, target, level, module path) probes that address at least one additional writer, plus duplication probes with a non-None setting; routing also through a logger without any additional writer; one more unit routes records while an additional FileLogWriter fails with ENOSPC on every write (what is addressed to it reaches nobody else)",
+        rule: "routing: every brace list of <= 4 (quick, 205 lists) / 5 (thorough, 325 lists) distinct names from {A, B, S, U, _Default} in every order plus plain targets {m, m::x, other} x 5 levels x module path {m, other, absent} x specification {off, error, info, trace, off,m=debug} x primary {recording writer, file}; duplication: 7 x 7 Duplicate settings for stderr x stdout x 5 levels at build time, and every ordered pair (old, new) through adapt_duplication_to_stderr / _stdout; distinct_nontrivial = distinct (specification, primary, target, level, module path) probes that address at least one additional writer, plus duplication probes with a non-None setting; routing also through a logger without any additional writer; one more unit routes records while an additional FileLogWriter fails with ENOSPC on every write (what is addressed to it reaches nobody else); plus an auxiliary free-running pass (sampling) in which two threads adapt the two duplication levels at the same moment, 3000 / 40000 rounds",
         assumptions: vec![
             "repeated names in one brace list are not enumerated (the statement does not define them)".into(),
             "stdout / stderr are observed by redirecting fd 1 / 2 of the worker process".into(),
@@ -104,7 +104,100 @@ fn dup_admits(d: Duplicate, l: Level) -> bool {
 
 // units: routing = spec x primary (10); duplication = 7 (stderr setting) + 2 (adapt)
 fn units(_tier: &str) -> usize {
-    specs().len() * 2 + DUPS.len() + 2 + specs().len() + 1
+    specs().len() * 2 + DUPS.len() + 2 + specs().len() + 1 + 1
+}
+
+fn adapt_stress_rounds() -> usize {
+    if THOROUGH.load(std::sync::atomic::Ordering::Relaxed) {
+        40_000
+    } else {
+        3_000
+    }
+}
+
+/// Auxiliary, free-running (sampling; decides nothing on its own): two threads adapt the two
+/// duplication levels at the same moment, round after round, each to the opposite of what it set
+/// in the round before; after each round a warn record shows which levels are in force. The two
+/// settings are independent: an update of one must never undo the other (the window of such a
+/// lost update contains no hook, the scheduler cannot enumerate it).
+fn adapt_stress() -> Result<(u64, u64), Fail> {
+    use std::sync::atomic::{AtomicUsize, Ordering};
+    let sc = Scratch::new("c13s");
+    let rec = Recorder::new(LevelFilter::Trace);
+    let (logger, handle) = Logger::with(flexi_logger::LogSpecification::trace())
+        .format(lg::payload_format)
+        .log_to_writer(Box::new(rec.clone()))
+        .duplicate_to_stderr(Duplicate::Error)
+        .duplicate_to_stdout(Duplicate::Error)
+        .error_channel(ErrorChannel::DevNull)
+        .build()
+        .map_err(|e| Fail {
+            clause: "machinery",
+            cause: "build".into(),
+            detail: e.to_string(),
+        })?;
+    let rounds = adapt_stress_rounds();
+    let (pe, po) = (sc.path().join("err.txt"), sc.path().join("out.txt"));
+    let ce = FdCapture::start(2, pe.clone());
+    let co = FdCapture::start(1, po.clone());
+    let gate = std::sync::Arc::new(AtomicUsize::new(0));
+    let done = std::sync::Arc::new(AtomicUsize::new(0));
+    let mut ths = Vec::new();
+    for which in 0..2usize {
+        let (gate, done) = (std::sync::Arc::clone(&gate), std::sync::Arc::clone(&done));
+        let mut h = handle.clone();
+        ths.push(std::thread::spawn(move || {
+            for r in 0..rounds {
+                while gate.load(Ordering::SeqCst) <= r {
+                    std::hint::spin_loop();
+                }
+                // stderr: Info in even rounds, Error in odd ones; stdout the other way round
+                let lvl = if (r + which) % 2 == 0 { Duplicate::Info } else { Duplicate::Error };
+                if which == 0 {
+                    h.adapt_duplication_to_stderr(lvl).ok();
+                } else {
+                    h.adapt_duplication_to_stdout(lvl).ok();
+                }
+                done.fetch_add(1, Ordering::SeqCst);
+            }
+            std::mem::forget(h);
+        }));
+    }
+    let len = |p: &std::path::Path| std::fs::metadata(p).map_or(0, |m| m.len());
+    let mut bad: Option<String> = None;
+    for r in 0..rounds {
+        gate.store(r + 1, Ordering::SeqCst);
+        while done.load(Ordering::SeqCst) < 2 * (r + 1) {
+            std::hint::spin_loop();
+        }
+        let (e0, o0) = (len(&pe), len(&po));
+        lg::log_to(&*logger, Level::Warn, "m", "probe");
+        let (de, dout) = (len(&pe) > e0, len(&po) > o0);
+        let (we, wo) = (r % 2 == 0, r % 2 == 1);
+        if bad.is_none() && (de != we || dout != wo) {
+            bad = Some(format!("round {r}: stderr was adapted to {} and stdout to {} at the same moment by two threads; a warn record was then duplicated to stderr: {de} (expected {we}), to stdout: {dout} (expected {wo})", if we { "Info" } else { "Error" }, if wo { "Info" } else { "Error" }));
+        }
+    }
+    for t in ths {
+        t.join().ok();
+    }
+    if let Some(c) = co {
+        c.finish();
+    }
+    if let Some(c) = ce {
+        c.finish();
+    }
+    rec.take();
+    handle.shutdown();
+    drop(logger);
+    match bad {
+        Some(d) => Err(Fail {
+            clause: "dup-wrong",
+            cause: "concurrent-adapt/free-running".into(),
+            detail: d,
+        }),
+        None => Ok((rounds as u64, 0)),
+    }
 }
 
 /// Routing while one of the named writers fails: the additional FileLogWriter F writes to a full
@@ -468,7 +561,10 @@ fn duplication_adapt(stderr: bool) -> Result<u64, Fail> {
 fn run_unit(tier: &str, unit: usize, out: &mut Out) {
     THOROUGH.store(tier != "quick", std::sync::atomic::Ordering::Relaxed);
     let ns = specs().len() * 2;
-    let r: Ran<Result<(u64, u64), Fail>> = if unit >= ns + DUPS.len() + 2 + specs().len() {
+    let r: Ran<Result<(u64, u64), Fail>> = if unit >= ns + DUPS.len() + 2 + specs().len() + 1 {
+        out.count("adapt_stress_rounds(sampling)", adapt_stress_rounds() as u64);
+        run_isolated(Duration::from_secs(600), adapt_stress)
+    } else if unit >= ns + DUPS.len() + 2 + specs().len() {
         run_isolated(Duration::from_secs(120), routing_with_failing_writer)
     } else if unit >= ns + DUPS.len() + 2 {
         let i = unit - ns - DUPS.len() - 2;
